@@ -477,6 +477,75 @@ func runC13(c *Ctx) {
 		}
 	}
 	c.judge(nStores >= 1, "R-EDITS-WRITERS", "mdiff:no other writer", newFn.Pos(), "no function of package mdiff writes through Diff.Edits", "Diff.Edits is never initialised")
+	// a chunk's edit list must not share storage with the script: AddContext and Unify append to and trim chunk
+	// lists in place.  In New, nothing stored to Chunk.Edits may be a slice of the value stored to Diff.Edits.
+	{
+		var script ssa.Value
+		allInstrs(newFn, func(in ssa.Instruction) {
+			if st, ok := in.(*ssa.Store); ok {
+				if fa, ok := st.Addr.(*ssa.FieldAddr); ok {
+					if _, f := fieldVarOf(fa); sameField(f, editsF) {
+						script = st.Val
+					}
+				}
+			}
+		})
+		chunkEditsF := P.Field("mdiff", "Chunk", "Edits")
+		fromScript := func(v ssa.Value) bool {
+			seen := map[ssa.Value]bool{}
+			var walk func(v ssa.Value) bool
+			walk = func(v ssa.Value) bool {
+				if v == nil || seen[v] {
+					return false
+				}
+				seen[v] = true
+				if v == script {
+					return true
+				}
+				switch x := v.(type) {
+				case *ssa.Slice:
+					return walk(x.X)
+				case *ssa.ChangeType:
+					return walk(x.X)
+				case *ssa.Phi:
+					for _, e := range x.Edges {
+						if walk(e) {
+							return true
+						}
+					}
+				case *ssa.Call:
+					if ap, ok := isBuiltinCall(x, "append"); ok {
+						return walk(ap.Call.Args[0])
+					}
+				}
+				return false
+			}
+			return walk(v)
+		}
+		if script != nil && chunkEditsF != nil {
+			nCh := 0
+			for _, fn := range append([]*ssa.Function{newFn}, newFn.AnonFuncs...) {
+				allInstrs(fn, func(in ssa.Instruction) {
+					st, ok := in.(*ssa.Store)
+					if !ok {
+						return
+					}
+					fa, ok := st.Addr.(*ssa.FieldAddr)
+					if !ok {
+						return
+					}
+					if _, f := fieldVarOf(fa); !sameField(f, chunkEditsF) {
+						return
+					}
+					nCh++
+					c.judge(!fromScript(st.Val), "R-EDITS-WRITERS", fmt.Sprintf("mdiff.New:chunk edits=%s", ksym(st.Val)), st.Pos(), "the chunk's edit list has its own storage", "a chunk's edit list is a window on the script slice stored in Diff.Edits: appending context to the chunk (AddContext) or trimming it (Unify) overwrites the script")
+				})
+			}
+			if nCh == 0 {
+				c.undecided("R-EDITS-WRITERS", "mdiff.New:chunk edits", newFn.Pos(), "New never sets a chunk's edit list")
+			}
+		}
+	}
 
 	// ---- R-CONTEXT-FRESH
 	// (1) the in-place span append in UnifyChunks is guarded by Emit on both edits
@@ -754,6 +823,7 @@ func runC13(c *Ctx) {
 	}
 
 	ruleTrimSide(c)
+	ruleBoundSide(c, "mdiff")
 
 	// ---- R-LR-MIRROR
 	mirror := strings.NewReplacer(".LStart", ".RStart", ".LEnd", ".REnd", "lcur", "rcur", "addl", "addr")
@@ -1203,3 +1273,61 @@ func isBuiltinCall2(in ssa.Instruction, name string) (*ssa.Call, bool) {
 }
 
 var _ = constant.MakeBool
+
+// ruleBoundSide (an inconsistent-belief rule): an index into one slice field of a struct is tested against the
+// LENGTH OF A SIBLING slice field of the same struct and never against its own.  Left/Right are walked in
+// lockstep with separate positions; a bound taken from the wrong side either panics or cuts context short.
+func ruleBoundSide(c *Ctx, pkg string) {
+	c.rule("R-BOUND-SIDE", 2, "an index into a slice field is bounded by the length of that field, not only by a sibling field's length")
+	for _, fn := range c.P.PkgFuncs(pkg) {
+		name := fnName(fn)
+		allInstrs(fn, func(in ssa.Instruction) {
+			var xs, idx ssa.Value
+			switch x := in.(type) {
+			case *ssa.IndexAddr:
+				xs, idx = x.X, x.Index
+			case *ssa.Index:
+				xs, idx = x.X, x.Index
+			default:
+				return
+			}
+			base, f := loadedField(xs)
+			if f == nil {
+				return
+			}
+			if _, isSlice := f.Type().Underlying().(*types.Slice); !isSlice {
+				return
+			}
+			if _, isConst := idx.(*ssa.Const); isConst {
+				return
+			}
+			own, sibling := false, ""
+			for _, cm := range cmpsAt(in.Block()) {
+				for _, pr := range [][2]ssa.Value{{cm.X, cm.Y}, {cm.Y, cm.X}} {
+					if pr[0] != idx {
+						continue
+					}
+					ln, ok := isBuiltinCall(pr[1], "len")
+					if !ok {
+						continue
+					}
+					b2, g := loadedField(ln.Call.Args[0])
+					if g == nil || sym(b2) != sym(base) {
+						continue
+					}
+					if sameField(g, f) {
+						own = true
+					} else if _, isSlice := g.Type().Underlying().(*types.Slice); isSlice {
+						sibling = g.Name()
+					}
+				}
+			}
+			if !own && sibling == "" {
+				return // no length test at all on this index: not this rule's business
+			}
+			c.sawFn(name)
+			key := fmt.Sprintf("%s:%s[%s]", name, f.Name(), ksym(idx))
+			c.judge(own, "R-BOUND-SIDE", key, in.Pos(), "bounded by its own length", "the index into ."+f.Name()+" is tested against len(."+sibling+") and never against len(."+f.Name()+"): the bound is taken from the wrong side")
+		})
+	}
+}
